@@ -128,6 +128,9 @@ static const PmcConfig CFG[] = {
     {"0o:w2,w1|s1s2",         3, {1,2}, {0,0}, {0,0}, {0,0}, "unequal demands, out-of-order resume"},
     {"0i:t1|s1:tdev",         3, {1,2}, {1,1}, {0,0}, {2,3}, "timeout racing with signal"},
     {"0i:t1,w1|s1s1:tdev",    3, {1,2}, {1,1}, {0,0}, {2,2}, "a waiter times out while its successor must be resumed"},
+    {"0i:t2,w1|s1:tdev",      3, {1,2}, {1,1}, {0,0}, {2,2}, "timed head waiter with the larger demand gives up: its successor is covered and must be resumed"},
+    {"0i:pt2,pw1,ps1:tdev",   3, {0,0}, {1,1}, {0,0}, {0,0}, "same on one vCPU, every arrival order"},
+    {"0i:pt3,pw2,pw1,ps1ps2:tdev", 2, {0,0}, {1,2}, {0,0}, {0,0}, ""},
     {"0i:W1,w1|s1,i0",        3, {1,2}, {0,0}, {0,0}, {0,0}, "interrupted head waiter must re-run the resume pass"},
     {"0i:W2,w1|s1,i0",        3, {1,2}, {0,0}, {0,0}, {0,0}, "interrupted head with larger demand: successor covered"},
     {"1i:w1,w1|s1",           3, {1,2}, {0,0}, {0,0}, {0,0}, "initial token"},
